@@ -115,6 +115,7 @@ theorem consistent_step (beh : Behaviour) (m0 : VT.Modes) (r : Requested) (m : V
     | erase _ => exact h
     | setSize _ => exact h
     | rawWrite _ => exact h
+    | input _ => exact h
 
 /-- **the property**: after any in-domain history the terminal's cursor visibility, active buffer, mouse
     reporting and title are the ones most recently requested (elision notwithstanding), modes the
